@@ -287,4 +287,4 @@ class Prop:
                      'oracle: python json decoder (strict, no NaN/Infinity) as the independent RFC 8259 judge'],
             assumptions=['texts that are not UTF-8 are outside the statement and only compared model vs implementation',
                          'trailing option: a number directly followed by . e E is the excluded corner (DESIGN section 9, C12)'],
-            explanation='model of the scanner with theorems; tie by correspondence; encoding-independent oracle for validity, tree and Len')
+            explanation='model of the scanner with theorems (C12_iff: accepted exactly the RFC 8259 texts, both directions for all byte strings; trailing option sound and complete up to maximal munch on numbers; totality); tie by correspondence; encoding-independent oracle for validity, tree and Len')
